@@ -257,7 +257,12 @@ func (bqp *binaryQuantizedPoint) Id() uint64 {
 }
 
 func (bqp *binaryQuantizedPoint) IdFromKey(key []byte) (uint64, bool) {
-	return conversion.NodeIdFromKey(key, 'v')
+	// A point is stored either as its full vector or, once quantised, only as
+	// its binary code. Both keys identify the point.
+	if id, ok := conversion.NodeIdFromKey(key, 'v'); ok {
+		return id, true
+	}
+	return conversion.NodeIdFromKey(key, 'q')
 }
 
 func (bqp *binaryQuantizedPoint) SizeInMemory() int64 {
